@@ -11,7 +11,10 @@ import (
 	"strconv"
 	"strings"
 	"sync"
+	"sync/atomic"
 	"time"
+
+	"flamingo.me/flamingo/v3/framework/flamingo"
 
 	"flamingo.me/pugtemplate/pugjs"
 )
@@ -26,23 +29,47 @@ import (
 // goroutine is parked.  A sequential history is a schedule that runs each
 // thread to completion before the next one starts.
 //
+// A load is a long operation.  Besides the three yield points the harness owns
+// a further, hook-free parking point INSIDE a running load: Engine.FuncProvider,
+// which compileDir calls once per template file it is about to compile.  A
+// "c" event releases a thread parked at "load:locked" or in FuncProvider and
+// lets it run to its next FuncProvider call (observed point "compile") or to
+// the end of the load; a "t" event lets it run to the next yield point.
+//
 // A released thread that neither parks nor returns within the bound (it waits
 // for a lock somebody parked holds) is reported as its own class "stuck"; the
 // case is then abandoned: all hooks are opened and the goroutines run free.
+// When the event says that the generator EXPECTS the thread to block ("b":
+// true) the bound is the short probe bound, the observation is "blocked", the
+// thread stays in flight (it goes on by itself when the lock is released) and
+// the case goes on; a later "t" event of that thread only waits for it.  A
+// thread that is really blocked can never be seen parking or returning, so the
+// probe has no false alarms; a thread that should block and does not is seen
+// parking or returning within the probe bound.
+//
+// File edits can keep a file's size (padding), restore or fix its modification
+// time (os.Chtimes), replace it atomically (temp file + rename: new inode) or
+// in place, and rename files and directories.
 //
 // Nothing here judges anything.  Error texts are only mapped to a class.
 
 type c10File struct {
-	P string `json:"p"` // hex, path relative to basedir
-	K string `json:"k"` // tpl | json | syntax | js | node | mixin | other
-	M string `json:"m"` // hex marker (tpl) or raw content (other)
+	P  string `json:"p"` // hex, path relative to basedir
+	K  string `json:"k"` // tpl | json | syntax | js | node | mixin | other
+	M  string `json:"m"` // hex marker (tpl) or raw content (other)
+	Z  int    `json:"z,omitempty"`
+	MT string `json:"mt,omitempty"`
 }
 
 type c10Edit struct {
-	A string `json:"a"` // write | rm | mkdir | rmpage | mkpage
-	P string `json:"p,omitempty"`
-	K string `json:"k,omitempty"`
-	M string `json:"m,omitempty"`
+	A  string `json:"a"` // write | rm | mkdir | rmpage | mkpage | mv
+	P  string `json:"p,omitempty"`
+	K  string `json:"k,omitempty"`
+	M  string `json:"m,omitempty"`
+	Q  string `json:"q,omitempty"`  // mv: destination (hex, relative to basedir)
+	Z  int    `json:"z,omitempty"`  // write: pad the content with spaces to this size
+	MT string `json:"mt,omitempty"` // write: "" natural | keep (mtime of the file replaced) | fixed (one build time stamp)
+	V  string `json:"v,omitempty"`  // write: "" in place (same inode) | rename (temp file + rename over)
 }
 
 type c10Op struct {
@@ -51,7 +78,9 @@ type c10Op struct {
 }
 
 type c10Ev struct {
-	T *int      `json:"t,omitempty"` // step of thread t
+	T *int      `json:"t,omitempty"` // step of thread t to its next yield point
+	C *int      `json:"c,omitempty"` // step of thread c (inside a load) to its next FuncProvider call
+	B bool      `json:"b,omitempty"` // the thread is expected to block: probe bound, go on
 	E []c10Edit `json:"e,omitempty"` // file edits
 }
 
@@ -72,7 +101,7 @@ type c10Thread struct {
 
 type c10Obs struct {
 	Threads  []c10Thread `json:"threads"`
-	Steps    []string    `json:"steps"` // per schedule event: check | locked | afterload | done | stuck | noop | edit
+	Steps    []string    `json:"steps"` // per schedule event: check | locked | afterload | compile | done | blocked | stuck | noop | edit
 	Leftover int         `json:"leftover"`
 }
 
@@ -81,7 +110,11 @@ const (
 	c10StuckShort = 300 * time.Millisecond  // after several stuck steps in the same run
 	c10Drain      = 1500 * time.Millisecond
 	c10DrainShort = 250 * time.Millisecond // same
+	c10Probe      = 30 * time.Millisecond  // a thread expected to block: how long it is watched
 )
+
+// the one build time stamp of "mt":"fixed"
+var c10Epoch = time.Date(2001, 9, 9, 1, 46, 40, 0, time.UTC)
 
 var c10StuckSeen int
 
@@ -109,6 +142,7 @@ type c10Thr struct {
 	started bool
 	fin     bool
 	res     c10Thread
+	cpark   atomic.Bool // park at the next FuncProvider call
 }
 
 var (
@@ -127,6 +161,20 @@ func c10Hook(point string) {
 		return
 	}
 	th.parked <- point
+	<-th.resume
+}
+
+// c10Compile is called from the engine's FuncProvider: once per template file compileDir is about to compile
+func c10Compile() {
+	id := goid()
+	c10mu.Lock()
+	th := c10byGoid[id]
+	free := th == nil || c10free[th]
+	c10mu.Unlock()
+	if free || !th.cpark.Load() {
+		return
+	}
+	th.parked <- "compile"
 	<-th.resume
 }
 
@@ -150,6 +198,8 @@ func c10Content(k, m string) string {
 	return unhx(m)
 }
 
+var c10tmp int
+
 func c10Apply(dir string, eds []c10Edit) error {
 	for _, e := range eds {
 		switch e.A {
@@ -158,7 +208,41 @@ func c10Apply(dir string, eds []c10Edit) error {
 			if err := os.MkdirAll(filepath.Dir(full), 0o755); err != nil {
 				return err
 			}
-			if err := os.WriteFile(full, []byte(c10Content(e.K, e.M)), 0o644); err != nil {
+			content := c10Content(e.K, e.M)
+			if len(content) < e.Z {
+				content += strings.Repeat(" ", e.Z-len(content))
+			}
+			prev, prevErr := os.Stat(full)
+			if e.V == "rename" {
+				c10tmp++
+				tmp := filepath.Join(dir, fmt.Sprintf(".c10tmp%d", c10tmp))
+				if err := os.WriteFile(tmp, []byte(content), 0o644); err != nil {
+					return err
+				}
+				if err := os.Rename(tmp, full); err != nil {
+					return err
+				}
+			} else if err := os.WriteFile(full, []byte(content), 0o644); err != nil {
+				return err
+			}
+			switch e.MT {
+			case "keep":
+				if prevErr == nil {
+					if err := os.Chtimes(full, prev.ModTime(), prev.ModTime()); err != nil {
+						return err
+					}
+				}
+			case "fixed":
+				if err := os.Chtimes(full, c10Epoch, c10Epoch); err != nil {
+					return err
+				}
+			}
+		case "mv":
+			dst := filepath.Join(dir, unhx(e.Q))
+			if err := os.MkdirAll(filepath.Dir(dst), 0o755); err != nil {
+				return err
+			}
+			if err := os.Rename(filepath.Join(dir, unhx(e.P)), dst); err != nil {
 				return err
 			}
 		case "rm":
@@ -232,6 +316,8 @@ func c10Point(p string) string {
 		return "locked"
 	case "render:after-load":
 		return "afterload"
+	case "compile":
+		return "compile"
 	}
 	return "point:" + p
 }
@@ -249,12 +335,17 @@ func runC10(c c10Case) (obs c10Obs, err error) {
 	}
 	init := make([]c10Edit, len(c.Files))
 	for i, f := range c.Files {
-		init[i] = c10Edit{A: "write", P: f.P, K: f.K, M: f.M}
+		init[i] = c10Edit{A: "write", P: f.P, K: f.K, M: f.M, Z: f.Z, MT: f.MT}
 	}
 	if err := c10Apply(dir, init); err != nil {
 		return obs, err
 	}
 	e := newEngine(dir, c.Debug, 0, nil)
+	provider := e.FuncProvider
+	e.FuncProvider = func() map[string]flamingo.TemplateFunc {
+		c10Compile()
+		return provider()
+	}
 
 	ths := make([]*c10Thr, len(c.Ops))
 	for i := range ths {
@@ -287,17 +378,24 @@ func runC10(c c10Case) (obs c10Obs, err error) {
 		c10mu.Unlock()
 	}()
 
-	parkedAt := make([]bool, len(ths)) // thread i sits in the hook waiting for resume
+	parkedAt := make([]bool, len(ths))   // thread i sits in a hook waiting for resume
+	parkedIn := make([]string, len(ths)) // ... at this point
 	abandoned := false
 	for _, ev := range c.Sched {
-		if ev.T == nil {
+		if ev.T == nil && ev.C == nil {
 			if err := c10Apply(dir, ev.E); err != nil {
 				return obs, err
 			}
 			obs.Steps = append(obs.Steps, "edit")
 			continue
 		}
-		i := *ev.T
+		compile := ev.T == nil
+		i := 0
+		if compile {
+			i = *ev.C
+		} else {
+			i = *ev.T
+		}
 		if i < 0 || i >= len(ths) {
 			return obs, fmt.Errorf("bad thread %d", i)
 		}
@@ -306,27 +404,43 @@ func runC10(c c10Case) (obs c10Obs, err error) {
 			obs.Steps = append(obs.Steps, "noop")
 			continue
 		}
-		if !th.started {
-			start(i)
-		} else if parkedAt[i] {
+		if compile {
+			// only a thread inside a load can take a compile step
+			if !parkedAt[i] || (parkedIn[i] != "load:locked" && parkedIn[i] != "compile") {
+				obs.Steps = append(obs.Steps, "noop")
+				continue
+			}
+			th.cpark.Store(true)
 			parkedAt[i] = false
 			th.resume <- struct{}{}
-		} else {
-			obs.Steps = append(obs.Steps, "noop")
-			continue
+		} else if !th.started {
+			th.cpark.Store(false)
+			start(i)
+		} else if parkedAt[i] {
+			th.cpark.Store(false)
+			parkedAt[i] = false
+			th.resume <- struct{}{}
 		}
+		// else: in flight (released earlier, seen blocked): only wait for it
 		bound := c10Stuck
 		if c10StuckSeen >= 3 {
 			bound = c10StuckShort
 		}
+		if ev.B {
+			bound = c10Probe
+		}
 		select {
 		case p := <-th.parked:
-			parkedAt[i] = true
+			parkedAt[i], parkedIn[i] = true, p
 			obs.Steps = append(obs.Steps, c10Point(p))
 		case r := <-th.done:
 			th.fin, th.res = true, r
 			obs.Steps = append(obs.Steps, "done")
 		case <-time.After(bound):
+			if ev.B {
+				obs.Steps = append(obs.Steps, "blocked")
+				break
+			}
 			c10StuckSeen++
 			obs.Steps = append(obs.Steps, "stuck")
 			th.res = c10Thread{Class: "stuck"}
